@@ -1106,7 +1106,8 @@ def lmer_lemmas(F, rep, which=None, ktypes=None):
             guarded(rep, "L-lmer-new", "%s/len-full" % tag, "len", f_len)
 
         if want("from_slice"):
-            for ell in sorted({0, 1, 2, min(5, ML), max(ML - 5, 0), max(ML - 4, 0), max(ML - 3, 0), max(ML - 2, 0), ML - 1, ML}):
+            for ell in sorted({0, 1, 2, min(5, ML), max(ML - 5, 0), max(ML - 4, 0), max(ML - 3, 0), max(ML - 2, 0), ML - 1, ML} |
+                              ({31, 32, 33, 63, 64, 65, 95, 96, 97, 127, 128, 129, 159, 160, 161} & set(range(ML + 1)))):
                 def f(ell=ell):
                     src = Ref(Cell(Arr(byte_seq("s", ell)), "bases"), (), 0, ell)
                     r, _ = run_inst(F, lt.key("Vmer", "from_slice"), [src])
@@ -3159,8 +3160,14 @@ def node_kmer_iter_e2e(F, rep, rule="L-node-iter", quick=True):
                     hi, lo = kt.lane_bits(j)
                     blo, bhi = view_base_bits("s", st, ln, False, idx + j)
                     spec[hi], spec[lo] = bhi, blo
-                if list(got.getbits()) != spec:
-                    return "yields a k-mer that is not k-mer %d of the node (bases %d..%d)" % (idx, idx, idx + K)
+                gb = list(got.getbits())
+                if CaseHarness.subst:
+                    # decided under a case split (a comparison of a symbolic word with a constant came out "equal"): both sides under the case
+                    gb = [bv.t_subst(x, CaseHarness.subst) for x in gb]
+                    spec = [bv.t_subst(x, CaseHarness.subst) for x in spec]
+                if gb != spec:
+                    return "yields a k-mer that is not k-mer %d of the node (bases %d..%d)%s" % (
+                        idx, idx, idx + K, " — in the case where a k-mer the iterator compared with a constant equals it (e.g. an all-A k-mer inside the node)" if CaseHarness.subst else "")
                 return None
 
             try:
@@ -3172,9 +3179,15 @@ def node_kmer_iter_e2e(F, rep, rule="L-node-iter", quick=True):
                         r.fields[1].fields[0].is_conc() and r.fields[1].fields[0].val == count
                     if not ok:
                         bad = bad or "size_hint of a fresh iterator over a node of %d k-mers is %r" % (count, r)
-                for sc in scripts:
+                # every script is run for every outcome of the comparisons (symbolic word == constant) the iterator makes on the way
+                # (none on the pinned tree): a sentinel value that collides with a real k-mer shows in the "equal" case
+                jobs = [(sc, []) for sc in scripts]
+                ncases = 0
+                while jobs:
+                    sc, case_script = jobs.pop(0)
                     if bad or inc:
                         break
+                    CaseHarness.begin(case_script)
                     cell = fresh()
                     idx = 0
                     trace = []
@@ -3207,6 +3220,13 @@ def node_kmer_iter_e2e(F, rep, rule="L-node-iter", quick=True):
                             else:
                                 bad = "a node of %d k-mers (view at %d of the packed store): after %s the call %s" % (count, st, ", ".join(shown), pr)
                             break
+                    ch = list(CaseHarness._choices)
+                    if ncases < 40:
+                        for i_ in range(len(case_script), len(ch)):
+                            if not ch[i_]:
+                                jobs.append((sc, ch[:i_] + [True]))
+                                ncases += 1
+                CaseHarness.begin([])
             except Diverge as e:
                 bad = bad or "a node of %d k-mers: %s diverges (panics): %s" % (count, ", ".join(trace[-4:]) if 'trace' in dir() else "into_iter", e)
             except (Undecided, Unsupported) as e:
